@@ -70,8 +70,8 @@ fn scen_desc(s: &Scen) -> Value {
 
 fn alphabet(fam: &Family, big: bool) -> Vec<Vec<f64>> {
     let mut v: Vec<Vec<f64>> = match fam {
-        Family::Exp1Off => vec![vec![1.0], vec![1.25], vec![2.5], vec![0.3], vec![40.0], vec![0.001]],
-        Family::Exp2Off => vec![vec![1.0, 3.5], vec![0.75, 3.0], vec![0.5, 5.0], vec![4.0, 0.2], vec![2.0, 2.0], vec![0.001, 3.0]],
+        Family::Exp1Off => vec![vec![1.0], vec![1.25], vec![2.5], vec![0.3], vec![40.0], vec![0.001], vec![-0.001]],
+        Family::Exp2Off => vec![vec![1.0, 3.5], vec![0.75, 3.0], vec![0.5, 5.0], vec![4.0, 0.2], vec![2.0, 2.0], vec![0.001, 3.0], vec![1.0, -0.001]],
         Family::Exp3 => vec![vec![0.6, 2.0, 5.0], vec![0.5, 1.75, 6.0], vec![1.0, 1.0, 4.0], vec![0.3, 3.0, 9.0], vec![2.0, 2.0, 2.0], vec![5.0, 0.5, 1.5]],
         Family::GaussDecayOff => vec![vec![2.2, 0.7, 1.4], vec![2.0, 0.625, 1.5], vec![1.0, 1.0, 3.0], vec![3.5, 0.3, 0.5], vec![2.5, 2.0, 2.0], vec![0.5, 0.5, 6.0]],
         Family::OLeary => vec![vec![0.5, 2.0, 3.0], vec![1.0, 2.5, 4.0], vec![2.0, 1.0, 5.0], vec![0.1, 0.2, 0.3], vec![1.5, 1.5, 1.5], vec![3.0, 0.5, 8.0]],
